@@ -204,6 +204,9 @@ def fork_case(ctx, case):
     plain_src = {}
     for cnt in (0, 1, 2):
         plain_src[cnt] = P_.compile_script('true NOP%d d%d false' % (code, cnt))
+    BODY_SRC = (('DEF', 'def 0 { %s d%d }'), ('IF', 'if { %s d%d }'), ('LOOP', 'loop { %s d%d }'), ('TRY', 'try { %s d%d }'),
+                ('ELSE', 'if { } else { %s d%d }'), ('EXCEPT', 'try { } except { %s d%d }'))
+    plain_body = {(kind, cnt): P_.compile_script(src % ('NOP%d' % code, cnt)) for kind, src in BODY_SRC for cnt in (0, 1, 2)}
     snap = snapshot()
     n = 0
     try:
@@ -224,6 +227,19 @@ def fork_case(ctx, case):
                 if got != plain_src[cnt]:
                     ctx.violation({'block': 'C', 'clause': 'both VMs compile to identical bytes'},
                                   f'{nm} d{cnt}: {got.hex()} vs plain {plain_src[cnt].hex()}')
+            # ... and inside every block body
+            for nm in [name.lower()] + [a.lower() for a in aliases]:
+                for kind, src in BODY_SRC:
+                    n += 1
+                    want_b = plain_body[(kind, cnt)]
+                    try:
+                        got = P_.compile_script(src % (nm, cnt))
+                    except BaseException as e:
+                        ctx.violation({'block': 'C', 'clause': 'fork op reachable by its name and aliases', 'inside': kind}, f'{nm}: {e!r}')
+                        continue
+                    if got != want_b:
+                        ctx.violation({'block': 'C', 'clause': 'both VMs compile to identical bytes', 'inside': kind},
+                                      f'{nm} d{cnt} in {kind}: {got.hex()} vs {want_b.hex()}')
             try:
                 lines = P_.decompile_script(plain_src[cnt])
                 back = P_.compile_script('\n'.join(lines))
